@@ -24,6 +24,7 @@ import (
 	"verif/gen"
 	"verif/hx"
 	"verif/ops"
+	"verif/prof"
 )
 
 // Program is a concurrent test program: one op list per goroutine.
@@ -273,7 +274,162 @@ func gated(pool *ops.Pool) []string {
 			}
 		}
 	}
+	out = append(out, manyInFlight(data, spec)...)
 	return out
+}
+
+// gateWriter blocks in its first Write until gate is closed.
+type gateWriter struct {
+	buf     bytes.Buffer
+	started chan struct{}
+	gate    chan struct{}
+	once    sync.Once
+}
+
+func (g *gateWriter) Write(p []byte) (int, error) {
+	g.once.Do(func() { close(g.started); <-g.gate })
+	return g.buf.Write(p)
+}
+
+// manyInFlight starts n calls of one entry point, each on a reader (or
+// writer) of its own that pauses until all n calls are in progress, then lets
+// them all continue: however many calls are in progress at the same moment,
+// every one returns, with what it returns alone.
+func manyInFlight(data []byte, spec *gen.FileSpec) []string {
+	alone, _ := fit.Decode(bytes.NewReader(data))
+	wantDigest := prof.Digest(alone, prof.DigestOpts{})
+	var wantEnc []byte
+	if f, err := gen.BuildFile(spec); err == nil {
+		var buf bytes.Buffer
+		if fit.Encode(&buf, f, binary.LittleEndian) == nil {
+			wantEnc = buf.Bytes()
+		}
+	}
+	entries := []struct {
+		name string
+		run  func(r io.Reader) string
+	}{
+		{"Decode", func(r io.Reader) string {
+			f, err := fit.Decode(r)
+			if err != nil {
+				return "error " + err.Error()
+			}
+			if d := prof.Digest(f, prof.DigestOpts{}); d != wantDigest {
+				return "a different File than alone"
+			}
+			return ""
+		}},
+		{"DecodeChained", func(r io.Reader) string {
+			fs, err := fit.DecodeChained(r)
+			if err != nil || len(fs) != 1 {
+				return fmt.Sprintf("%d files, error %v", len(fs), err)
+			}
+			if d := prof.Digest(fs[0], prof.DigestOpts{}); d != wantDigest {
+				return "a different File than alone"
+			}
+			return ""
+		}},
+		{"CheckIntegrity", func(r io.Reader) string {
+			if err := fit.CheckIntegrity(r, false); err != nil {
+				return "error " + err.Error()
+			}
+			return ""
+		}},
+		{"DecodeHeaderAndFileID", func(r io.Reader) string {
+			if _, _, err := fit.DecodeHeaderAndFileID(r); err != nil {
+				return "error " + err.Error()
+			}
+			return ""
+		}},
+	}
+	var out []string
+	for _, n := range []int{130, 1030} {
+		for _, e := range entries {
+			gate := make(chan struct{})
+			results := make([]string, n)
+			started := make([]chan struct{}, n)
+			var wg sync.WaitGroup
+			for i := 0; i < n; i++ {
+				half := len(data) / 2
+				if e.name == "DecodeHeaderAndFileID" {
+					half = 13
+				}
+				g := &gateReader{data: data, half: half, started: make(chan struct{}), gate: gate}
+				started[i] = g.started
+				wg.Add(1)
+				go func(i int) { defer wg.Done(); results[i] = e.run(g) }(i)
+			}
+			if msg := releaseAndWait(started, gate, &wg); msg != "" {
+				out = append(out, fmt.Sprintf("%d %s calls on independent readers in progress at the same time: %s", n, e.name, msg))
+				continue
+			}
+			for i, r := range results {
+				if r != "" {
+					out = append(out, fmt.Sprintf("%d %s calls on independent readers in progress at the same time: call %d returned %s", n, e.name, i, r))
+					break
+				}
+			}
+		}
+		if wantEnc == nil {
+			continue
+		}
+		gate := make(chan struct{})
+		results := make([]string, n)
+		started := make([]chan struct{}, n)
+		var wg sync.WaitGroup
+		for i := 0; i < n; i++ {
+			g := &gateWriter{started: make(chan struct{}), gate: gate}
+			started[i] = g.started
+			wg.Add(1)
+			go func(i int) {
+				defer wg.Done()
+				f, err := gen.BuildFile(spec)
+				if err != nil {
+					close(g.started)
+					return
+				}
+				if err := fit.Encode(g, f, binary.LittleEndian); err != nil {
+					results[i] = "error " + err.Error()
+				} else if !bytes.Equal(g.buf.Bytes(), wantEnc) {
+					results[i] = "different bytes than alone"
+				}
+			}(i)
+		}
+		if msg := releaseAndWait(started, gate, &wg); msg != "" {
+			out = append(out, fmt.Sprintf("%d Encode calls on independent writers in progress at the same time: %s", n, msg))
+			continue
+		}
+		for i, r := range results {
+			if r != "" {
+				out = append(out, fmt.Sprintf("%d Encode calls on independent writers in progress at the same time: call %d returned %s", n, i, r))
+				break
+			}
+		}
+	}
+	return out
+}
+
+// releaseAndWait waits until every call has reached its pause, closes the
+// gate and waits for all calls to return.
+func releaseAndWait(started []chan struct{}, gate chan struct{}, wg *sync.WaitGroup) string {
+	deadline := time.After(20 * time.Second)
+	for i, ch := range started {
+		select {
+		case <-ch:
+		case <-deadline:
+			close(gate)
+			return fmt.Sprintf("call %d did not reach its reader's pause within 20 s", i)
+		}
+	}
+	close(gate)
+	all := make(chan struct{})
+	go func() { wg.Wait(); close(all) }()
+	select {
+	case <-all:
+		return ""
+	case <-time.After(20 * time.Second):
+		return "not all of them returned within 20 s after their input became available (calls wait for each other)"
+	}
 }
 
 type workerReply struct {
